@@ -4,4 +4,5 @@ Require Import NS.theories.GenCapture NS.theories.Capture.
 Extraction Language OCaml.
 Extraction "extract/ModelCapture.ml"
   Capture.init Capture.step Capture.run Capture.outcome_of Capture.run_outcome
-  Capture.outcome_ok Capture.utf8_valid Capture.captured GenCapture.read_chunk.
+  Capture.outcome_ok Capture.utf8_valid Capture.captured GenCapture.read_chunk
+  Capture.mk_cfg Capture.hc_of_list Capture.effective_timeout.
